@@ -140,6 +140,31 @@ def check(world, tier):
                 if st_ is not None and st_[0] == "i" and st_[1] == (0, ()) and en_ is not None and en_[0] == "i":
                     s_ = single_sym(en_[1])
                     rng_ok = env_field(R, s_, "repeat_amount")
+                elif st_ is not None and st_[0] == "i" and st_[1] == (1, ()) and en_ is not None and en_[0] == "i" and env_field(R, single_sym(en_[1]), "repeat_amount"):
+                    # peeled first iteration: `if r == 0 { return }; send; for _ in 1..r { send }` - one send of the same packet in the
+                    # same function before the loop, not executed when r == 0
+                    s_ = single_sym(en_[1])
+                    caller_sites = set()
+                    owner = fid if (fid, h) not in getattr(eng, "iter_loops", {}) else eng.iter_loops[(fid, h)]["caller"][0]
+                    pre = [n for n in call_sites_in_frame(R, set(R.send_nodes()) - ln, owner) if n not in ln and n[0] == owner]
+                    zero_targets = [edge[1] for edge, cnd in R.edges_on_symbol(s_)
+                                    if (cnd[0] == "eq" and cnd[2] == 0) or (cnd[0] == "bool" and cnd[1][0] == "cmp" and cnd[1][1] == "Eq" and cnd[2]
+                                                                          and ((not cnd[1][2][1] and cnd[1][2][0] == 0) or (not cnd[1][3][1] and cnd[1][3][0] == 0)))]
+                    head_node = (fid, h) if (fid, h) not in getattr(eng, "iter_loops", {}) else eng.iter_loops[(fid, h)]["caller"]
+                    nonzero_edges = [edge for edge, cnd in R.edges_on_symbol(s_)
+                                     if (cnd[0] == "neq" and 0 in cnd[2]) or (cnd[0] == "bool" and cnd[1][0] == "cmp" and (
+                                         (cnd[1][1] == "Eq" and not cnd[2]) or (cnd[1][1] == "Ne" and cnd[2])) and
+                                         ((not cnd[1][2][1] and cnd[1][2][0] == 0) or (not cnd[1][3][1] and cnd[1][3][0] == 0)))]
+                    if len(pre) == 1 and (zero_targets or nonzero_edges):
+                        p0 = pre[0]
+                        dominates = head_node not in g.reachable([(owner, 0)], avoid_nodes=[p0])
+                        # not executed when r == 0: unreachable from the r == 0 edge, or only reachable through the r != 0 edge
+                        skipped_when_zero = (p0 not in g.reachable(zero_targets)) if zero_targets else (p0 not in g.reachable([(owner, 0)], avoid_edges=nonzero_edges))
+                        rng_ok = dominates and skipped_when_zero
+                        if rng_ok:
+                            peeled = set(n for n in R.send_nodes() if n == p0 or (len(n[0]) > len(owner) and n[0][:len(owner)] == owner and n[0][len(owner)][3] == p0[1]))
+                            sends |= peeled
+                            in_loop |= peeled
             a.ob(rng_ok, "repeat-range %s" % tag, "the repeat loop of the %s worker does not run over 0..repeat_amount" % tag,
                  sample={"region": tag, "loop": node_str(prog, (fid, h)), "range": "0..Worker.repeat_amount" if rng_ok else "?"})
             # exactly one send per iteration
